@@ -112,7 +112,7 @@ impl Exec {
 
         // C07: protection set is fixed at the last moment before a call that may leave marking
         if ph0 == 1 || ph0 == 2 {
-            let roots = self.bk[ai].protected.clone();
+            let roots = self.bk[ai].resurrected.clone();
             if !roots.is_empty() {
                 let mut seen = vec![false; self.model.objs.len()];
                 self.model.closure_from(&mut seen, roots);
@@ -203,6 +203,7 @@ impl Exec {
             }
             self.bk[ai].mutated_since_wake = false;
             self.bk[ai].protected.clear();
+            self.bk[ai].resurrected.clear();
             self.bk[ai].root_retrace_owed = false;
         }
         (ret_some, panicked)
@@ -240,6 +241,7 @@ impl Exec {
                         started_in_call += 1;
                         self.bk[ai].cycles_started += 1;
                         self.bk[ai].protected.clear();
+            self.bk[ai].resurrected.clear();
                         if ph0 == 0 || ph0 == 3 || started_in_call > 1 {
                             self.bk[ai].mutated_since_wake = false;
                         }
@@ -553,8 +555,8 @@ impl Exec {
         }
         if finalize {
             for r in st.resurrected {
-                if !self.bk[ai].protected.contains(&r) {
-                    self.bk[ai].protected.push(r);
+                if !self.bk[ai].resurrected.contains(&r) {
+                    self.bk[ai].resurrected.push(r);
                 }
             }
         }
@@ -670,7 +672,7 @@ impl Exec {
         let count0 = m.total_gc_count();
         let ph0 = phase_ix(phase_of(&arena));
         if ph0 == 1 || ph0 == 2 {
-            let roots = self.bk[ai].protected.clone();
+            let roots = self.bk[ai].resurrected.clone();
             if !roots.is_empty() {
                 let mut seen = vec![false; self.model.objs.len()];
                 self.model.closure_from(&mut seen, roots);
@@ -864,6 +866,7 @@ impl Exec {
                 // the unwinding / error path dropped the context: treat as arena drop
                 self.retag_failed_ctor_events(ev0);
                 self.bk[ai].protected.clear();
+            self.bk[ai].resurrected.clear();
                 let _ = self.process_events_bounded(ev0, obs::events_len(), Some(a8), None, &what);
                 self.model.arenas[ai].alive = false;
                 self.after_arena_gone(ai, &what, "C11");
@@ -919,6 +922,7 @@ impl Exec {
             self.violate("C04", "arena-drop-panicked", format!("{what}: {}", obs::panic_message(&*p)));
         }
         self.bk[ai].protected.clear();
+            self.bk[ai].resurrected.clear();
         let _ = self.process_events_bounded(ev0, obs::events_len(), Some(ai as u8), None, &what);
         self.model.arenas[ai].alive = false;
         self.after_arena_gone(ai, &what, "C04");
@@ -1083,6 +1087,7 @@ impl Exec {
                 self.cov.faults_ctor += 1;
                 *self.cov.fault_cells.entry((3, ph0)).or_insert(0) += 1;
                 self.bk[ai].protected.clear();
+            self.bk[ai].resurrected.clear();
                 let _ = self.process_events_bounded(ev0, obs::events_len(), Some(a8), None, &what);
                 self.model.arenas[ai].alive = false;
                 self.after_arena_gone(ai, &what, "C11");
